@@ -9,7 +9,7 @@ READY = True
 CLAIMS = {
  "C32": dict(technique="TLC model checking of Triggers.tla (write channel, transaction groups, dispatcher map and channel, matcher; invariants ExactlyOnce / NoForeign / AtMostOnce / MapDrained) + TLC behaviours forced on the real writer goroutines, SyncWAL loop and TriggerPluginDispatcher.run by the gate player, with recording triggers in the real dispatcher + free-running concurrent writers under the race detector",
              text="Triggers.tla models WriteCSM queueing one write command per bucket and interval, RequestFlush / SyncWAL taking everything queued as one transaction group, FlushCommandsToWAL appending index+payload per file to the dispatcher map, the deferred DispatchRecords (map order, channel, map reset), run() receiving one file's records at a time and firing every trigger whose pattern matches. TLC checks exhaustively (3 clients, <=2 commands per request over 4 buckets x 2 intervals, 4 patterns incl. wildcards) that at quiescence every trigger has received every flushed record of a matching bucket exactly once and nothing else, at every moment at most once, and that the dispatcher map is drained. TLC-simulated behaviours are executed on a real instance started through the DI container with the real trigger dispatcher and SyncWAL goroutine: clients park after queueing (WriteCSM.beforeFlush), one is released to request the flush (that fixes the grouping into transaction groups), the loop parks before DispatchRecords and the dispatcher goroutine parks at every received item; recording triggers registered with trigger.NewMatcher report file key, interval index and payload of every record; the multiset per trigger must equal the written records of matching buckets (index recomputed from the timestamp, payload = the row without its epoch).",
-             note="Trusted: TLC, the Python concretisation (patterns restricted to ones on which anchored and unanchored regexp matching agree), the recording trigger. Bounded: 3 clients, 4 fixed-length 1Min buckets, 2 intervals, 4 patterns. Concurrent writers are interleaved at the hook points; the inline-flush mode without the background loop (BackgroundSync=false) is single-writer by design of the server and is not explored concurrently. Stress: 6 writers x 30 requests free-running with -race."),
+             note="Trusted: TLC, the Python concretisation (patterns restricted to ones on which anchored and unanchored regexp matching agree), the recording trigger. Bounded: 3 clients, 4 fixed-length 1Min buckets, 2 intervals, 4 patterns in the forced schedules; variable-length records (several ticks per interval in one request, and two requests forced into one transaction group) in a sequential scenario judged by the same exactly-once oracle. Concurrent writers are interleaved at the hook points; the inline-flush mode without the background loop (BackgroundSync=false) is single-writer by design of the server and is not explored concurrently. Stress: 6 writers x 30 requests free-running with -race."),
 }
 
 import calendar, json, os, random, shutil, struct
